@@ -1382,9 +1382,9 @@ end
 theorem namesClean_of_sources {wb : Workbook} {doc : Node} {f : Fields} {lists rows drows o ditems}
     (T : Trace wb doc f lists rows drows o ditems) (H : HeaderNoBr f)
     (hnames : ∀ x ∈ allNamesL (withMeta rows [] o.items), noBr x = true)
-    (hrest : noBrKids ((Choices.staticInsts [] lists).map Choices.instNode ++
-      bindNodesL f.name (topNames ditems) [f.name] (dWithMeta f.name rows ditems)) = true)
-    (hbody : noBrKids (bodyNodesL [f.name] ditems) = true) : NamesClean doc := by
+    (hrest : noBrKids ((Choices.staticInsts [] (othersApplied rows lists)).map Choices.instNode ++
+      bindNodesL (elsOf f.name (dWithMeta f.name rows ditems)) [(f.name, .group)] (dWithMeta f.name rows ditems)) = true)
+    (hbody : noBrKids (bodyNodesL (elsOf f.name (dWithMeta f.name rows ditems)) [f.name] ditems) = true) : NamesClean doc := by
   obtain ⟨ks, items, _, _, hitems, hinst, _, _⟩ := formOut_ok _ _ _ _ _ T.hform
   have hk : ntKids o.inst = instKids false (withMeta rows [] o.items) := by
     rw [hinst, hitems]; rfl
@@ -1400,9 +1400,9 @@ theorem namesClean_of_sources {wb : Workbook} {doc : Node} {f : Fields} {lists r
 theorem convert_c01_sources (wb : Workbook) (p : Bool) (text : Str) (h : convert wb p = .ok text)
     (hs : ∀ doc f lists rows drows o ditems, Trace wb doc f lists rows drows o ditems →
       HeaderNoBr f ∧ (∀ x ∈ allNamesL (withMeta rows [] o.items), noBr x = true) ∧
-      noBrKids ((Choices.staticInsts [] lists).map Choices.instNode ++
-        bindNodesL f.name (topNames ditems) [f.name] (dWithMeta f.name rows ditems)) = true ∧
-      noBrKids (bodyNodesL [f.name] ditems) = true) :
+      noBrKids ((Choices.staticInsts [] (othersApplied rows lists)).map Choices.instNode ++
+        bindNodesL (elsOf f.name (dWithMeta f.name rows ditems)) [(f.name, .group)] (dWithMeta f.name rows ditems)) = true ∧
+      noBrKids (bodyNodesL (elsOf f.name (dWithMeta f.name rows ditems)) [f.name] ditems) = true) :
     holds text (normAttrVal (formId wb)) = true := by
   refine convert_c01 wb p text h ?_
   intro doc hd
